@@ -67,8 +67,12 @@ type CheckCase struct {
 func Verdict(got string, strong, weak ref.TV) string {
 	switch got {
 	case "T":
-		if strong != ref.T {
+		if strong == ref.F {
 			return "V1-unsound-allow"
+		}
+		if strong == ref.E {
+			// the reference says the request must fail (an unevaluable condition decides); the engine allows
+			return "V1e-allow-where-reference-fails"
 		}
 	case "F":
 		if strong != ref.F && weak != ref.F {
@@ -118,7 +122,7 @@ func DecisionSignature(v string, w *ref.World, o, r string, reqctx *int) string 
 	switch {
 	case (v == "V2-wrong-deny" || v == "V3-missed-failure") && w.CycleUnderExclusion(o, r):
 		return v + "/cycle-in-exclusion-subtrahend"
-	case v == "V3-missed-failure" && UnevaluableWithSibling(w, reqctx):
+	case (v == "V3-missed-failure" || v == "V1e-allow-where-reference-fails") && UnevaluableWithSibling(w, reqctx):
 		return v + "/unevaluable-tuple-with-evaluable-sibling"
 	case v == "V4-spurious-failure" && UnevaluableUnreached(w, o, r, reqctx):
 		return v + "/unevaluable-condition-on-unreached-tuple"
